@@ -6,12 +6,20 @@
   `batchLoop_eq` shows by induction on the entry list that the accumulator loop of
   `_unmarshaled_dispatch` computes exactly `entries.filterMap (respond s)`.
 
+  Since fix 00c214e the last step of `_marshaled_dispatch` serialises every response on its own when
+  `jdumps` rejects the reply: `sent d` (JRV.Lemmas.Server) is what goes out for the response object `d`
+  — `d` itself, or a −32603 response of the same form that keeps `d`'s id when that id has a JSON value
+  (`keptId`).  `answer s e = (respond s e).map sent` is therefore what the client sees for the entry
+  `e`, and the reply array of a batch is `entries.filterMap (answer s)` — ALWAYS: no input collapses a
+  batch any more (the third branch of the former `C03_batch_order` is gone).
+
   The theorems hold for every server: default, instance and custom dispatchers, every callable
-  behaviour (return, raise, return a value whose conversion raises — `conv` is arbitrary), both
-  versions, pool absent or accepting (`s.pool ≠ .full`, see C02).
+  behaviour (return, raise, return a value whose conversion raises — `conv` is arbitrary — or which the
+  JSON library rejects), both versions, pool absent or accepting (`s.pool ≠ .full`, see C02).
+
+  The companion theorem of the extracted fact (`C03_gen_*`) is in JRV/Properties/C03Gen.lean.
 -/
 import JRV.Lemmas.Server
-import JRV.Generated
 
 set_option linter.unusedSimpArgs false
 set_option linter.unusedVariables false
@@ -33,16 +41,63 @@ private theorem shape_id {ver : Nat} {rid d : PyVal} (h : RespShape ver rid d) :
     · exact ⟨_, error_v2 ver hv rid _ _, by simp [lookupStr]⟩
     · exact ⟨_, error_v1 ver (by omega) rid _ _, by simp [lookupStr]⟩
 
+/-- What the client sees for the entry `e`: the response object as it is sent (`none`: nothing). -/
+def answer (s : Server) (e : PyVal) : Option PyVal := (respond s e).map sent
+
+/-- The id an answer can carry: the id of the entry — the same value — when it has a JSON value;
+    `null` when the entry is not an object, has no `id` member, or its id has no JSON value (an
+    instance or a set produced by class translation, a dictionary with tuple keys). -/
+def echoId (e : PyVal) : PyVal := if serialisable (entryId e) then entryId e else .none
+
+private theorem error_id (ver : Nat) (rid c m : PyVal) :
+    ∃ kvs, Payload.error ver rid c m .none = .dict kvs ∧ lookupStr "id" kvs = some rid := by
+  by_cases hv : ver ≥ 20
+  · exact ⟨_, error_v2 ver hv rid _ _, by simp [lookupStr]⟩
+  · exact ⟨_, error_v1 ver (by omega) rid _ _, by simp [lookupStr]⟩
+
 /- ---------- the theorems ---------- -/
 
 /-- Every response object carries the id of the entry that caused it — the same value — or null when
     the entry is not an object or has no `id` member; over all outcome paths (success, unknown method,
     bind error, raising callable, raising custom or instance dispatcher, result whose conversion
-    fails, each validation failure), for every server. -/
+    fails, each validation failure), for every server.  And so does what is *sent* for it: when the
+    response cannot be serialised, the −32603 response that replaces it still carries the entry's id
+    whenever that id has a JSON value (`echoId`), and an id that has none is not an id the reply
+    could carry (`C03_unusable_id_never_sent`). -/
 theorem C03_id_echo (s : Server) (e d : PyVal) (h : respond s e = some d) :
-    ∃ kvs, d = .dict kvs ∧ lookupStr "id" kvs = some (entryId e) := by
+    (∃ kvs, d = .dict kvs ∧ lookupStr "id" kvs = some (entryId e)) ∧
+    (∃ kvs, sent d = .dict kvs ∧ lookupStr "id" kvs = some (echoId e)) := by
   obtain ⟨ver, _, hs⟩ := respond_shape s e d h
-  exact shape_id hs
+  obtain ⟨kvs, hd, hid⟩ := shape_id hs
+  refine ⟨⟨kvs, hd, hid⟩, ?_⟩
+  subst hd
+  by_cases hser : serialisable (.dict kvs) = true
+  · refine ⟨kvs, by simp [sent, hser], ?_⟩
+    have : serialisable (entryId e) = true :=
+      serialisableKVs_lookup "id" kvs _ (by simpa [serialisable] using hser) hid
+    simp [echoId, this, hid]
+  · have hrid : respId (.dict kvs) = entryId e := by simp [respId, hid]
+    obtain ⟨kvs', hk, hl⟩ := error_id (if respHasJsonrpc (.dict kvs) then 20 else 10) (keptId (entryId e))
+      (.int codeInternal) (.str msgSerialize)
+    refine ⟨kvs', ?_, ?_⟩
+    · simp only [sent, hser, Bool.false_eq_true, ↓reduceIte, replacement, hrid]; exact hk
+    · rw [hl]; rfl
+
+/-- The same for `answer`: every answer is an object whose id is `echoId` of its entry. -/
+theorem C03_answer_id (s : Server) (e a : PyVal) (h : answer s e = some a) :
+    ∃ kvs, a = .dict kvs ∧ lookupStr "id" kvs = some (echoId e) := by
+  simp only [answer, Option.map_eq_some_iff] at h
+  obtain ⟨d, hd, ha⟩ := h
+  subst ha
+  exact (C03_id_echo s e d hd).2
+
+/-- An id without JSON value cannot be part of any reply: every document sent is serialisable. -/
+theorem C03_unusable_id_never_sent (s : Server) (e a : PyVal) (h : answer s e = some a) :
+    serialisable a = true := by
+  simp only [answer, Option.map_eq_some_iff] at h
+  obtain ⟨d, _, ha⟩ := h
+  subst ha
+  exact serialisable_sent d
 
 /-- An entry gets no response exactly when it is a well-formed notification: every other entry —
     calls, failing calls, unknown methods, invalid entries — gets exactly one. -/
@@ -64,39 +119,53 @@ theorem C03_answered_iff (s : Server) (hpool : s.pool ≠ .full) (e : PyVal) :
     simp only [respond, entryNF, hv, singleNF, hn]
     cases hp : s.pool <;> simp_all
 
-/-- One-to-one and in order: the reply array of a batch is exactly `entries.filterMap (respond s)` —
-    the responses of the answered entries, in entry order (when that array is JSON-serialisable,
-    i.e. the echoed ids and results are; otherwise the fixed code answers the single −32603 object). -/
-theorem C03_batch_order (s : Server) (hpool : s.pool ≠ .full) (entries : List PyVal) (hne : entries ≠ []) :
-    (marshaledDispatch s (.parsed (.list entries))).1 =
-      .ok (if (entries.filterMap (respond s)).isEmpty then .empty
-           else if serialisable (.list (entries.filterMap (respond s))) then .doc (.list (entries.filterMap (respond s)))
-           else .doc (faultDump s.cfg { code := .int codeInternal, message := .str msgSerialize })) := by
-  rw [marshaled_batch s hpool entries hne]
-  simp only [finalReply]
+theorem C03_answer_none_iff (s : Server) (hpool : s.pool ≠ .full) (e : PyVal) :
+    answer s e = Option.none ↔ wfNotification e = true := by
+  rw [← C03_answered_iff s hpool e]
+  simp [answer]
 
-/-- The number of responses is the number of entries that are not well-formed notifications. -/
-theorem C03_one_per_entry (s : Server) (hpool : s.pool ≠ .full) (entries : List PyVal) :
-    (entries.filterMap (respond s)).length = entries.countP (fun e => !wfNotification e) := by
+private theorem filterMap_answer (s : Server) (entries : List PyVal) :
+    entries.filterMap (answer s) = (entries.filterMap (respond s)).map sent := by
   induction entries with
   | nil => rfl
-  | cons e rest ih =>
-    cases hr : respond s e with
-    | none =>
-      have := (C03_answered_iff s hpool e).mp hr
-      simp [List.filterMap_cons, hr, ih, this]
-    | some d =>
-      have : wfNotification e = false := by
-        cases hw : wfNotification e with
-        | false => rfl
-        | true => rw [(C03_answered_iff s hpool e).mpr hw] at hr; exact absurd hr (by simp)
-      simp [List.filterMap_cons, hr, ih, this]
+  | cons e rest ih => cases h : respond s e <;> simp [List.filterMap_cons, answer, h, ← ih]
+
+/-- One-to-one and in order, ALWAYS: the reply array of a batch is exactly
+    `entries.filterMap (answer s)` — what is sent for the response of each answered entry, in entry
+    order; an element that cannot be serialised is replaced individually and never takes the others
+    with it. -/
+theorem C03_batch_order (s : Server) (hpool : s.pool ≠ .full) (entries : List PyVal) (hne : entries ≠ []) :
+    (marshaledDispatch s (.parsed (.list entries))).1 =
+      .ok (if (entries.filterMap (answer s)).isEmpty then .empty
+           else .doc (.list (entries.filterMap (answer s)))) := by
+  rw [marshaled_batch s hpool entries hne, finalReply_list, filterMap_answer]
+  cases entries.filterMap (respond s) <;> simp
+
+/-- The number of responses — built and sent — is the number of entries that are not well-formed notifications. -/
+theorem C03_one_per_entry (s : Server) (hpool : s.pool ≠ .full) (entries : List PyVal) :
+    (entries.filterMap (respond s)).length = entries.countP (fun e => !wfNotification e) ∧
+    (entries.filterMap (answer s)).length = entries.countP (fun e => !wfNotification e) := by
+  have h1 : (entries.filterMap (respond s)).length = entries.countP (fun e => !wfNotification e) := by
+    induction entries with
+    | nil => rfl
+    | cons e rest ih =>
+      cases hr : respond s e with
+      | none =>
+        have := (C03_answered_iff s hpool e).mp hr
+        simp [List.filterMap_cons, hr, ih, this]
+      | some d =>
+        have : wfNotification e = false := by
+          cases hw : wfNotification e with
+          | false => rfl
+          | true => rw [(C03_answered_iff s hpool e).mpr hw] at hr; exact absurd hr (by simp)
+        simp [List.filterMap_cons, hr, ih, this]
+  exact ⟨h1, by rw [filterMap_answer, List.length_map, h1]⟩
 
 /-- A batch that produces no response yields the empty body … -/
 theorem C03_empty_body (s : Server) (hpool : s.pool ≠ .full) (entries : List PyVal) (hne : entries ≠ [])
     (hnone : entries.filterMap (respond s) = []) :
     (marshaledDispatch s (.parsed (.list entries))).1 = .ok .empty := by
-  rw [C03_batch_order s hpool entries hne, hnone]
+  rw [C03_batch_order s hpool entries hne, filterMap_answer, hnone]
   rfl
 
 /-- … and no request body at all is ever answered with an empty array. -/
@@ -114,35 +183,31 @@ theorem C03_never_empty_array (s : Server) (hpool : s.pool ≠ .full) (po : Pars
       · cases e <;> simp [isList] at hl
         rename_i entries
         have hne : entries ≠ [] := by cases entries <;> simp_all [truthy]
-        rw [marshaled_batch s hpool entries hne]
-        simp only [finalReply]
+        rw [C03_batch_order s hpool entries hne]
         split
         · simp
         · rename_i hnonempty
-          split
-          · intro h; injection h with h; injection h with h; injection h with h
-            simp [h] at hnonempty
-          · simp [hfd]
+          intro h; injection h with h; injection h with h; injection h with h
+          simp [h] at hnonempty
       · rw [marshaled_single s hpool e ht (by simpa using hl)]
         cases hr : respond s e with
         | none => simp
         | some d =>
-          obtain ⟨kvs, hd, _⟩ := C03_id_echo s e d hr
-          subst hd
-          simp only [finalReply]
-          split <;> simp [hfd]
+          obtain ⟨_, kvs, hd, _⟩ := C03_id_echo s e d hr
+          obtain ⟨kvs0, hd0⟩ := respond_dict s e d hr
+          subst hd0
+          simp [finalReply_dict, hd]
     · rw [marshaled_falsy s e (by simpa using ht)]; simp [hfd]
 
-/-- A single request is answered with the response of that entry (or the empty body for a notification). -/
+/-- A single request is answered with what is sent for the response of that entry (or the empty body
+    for a notification) — whether or not the response can be serialised. -/
 theorem C03_single (s : Server) (hpool : s.pool ≠ .full) (e : PyVal) (ht : e.truthy = true) (hl : e.isList = false)
-    (d : PyVal) (hd : respond s e = some d) (hser : serialisable d = true) :
-    (marshaledDispatch s (.parsed e)).1 = .ok (.doc d) := by
+    (d : PyVal) (hd : respond s e = some d) :
+    (marshaledDispatch s (.parsed e)).1 = .ok (.doc (sent d)) := by
   rw [marshaled_single s hpool e ht hl]
-  simp [hd, finalReply, hser]
-
-/-- Tie to the source: both `except Exception` handlers of `_marshaled_single_dispatch` hand the request
-    id to the Fault they build (the model's `internalFault ex rid`). -/
-theorem C03_gen_exceptFaultsCarryId : Generated.exceptFaultsCarryId = some [true, true] := by decide
+  obtain ⟨kvs, hk⟩ := respond_dict s e d hd
+  subst hk
+  simp [hd, finalReply_dict]
 
 /- Non-vacuity: ids 0, false, a float and a structured id are echoed as such; a raising custom
    dispatcher keeps the id; order is the entry order. -/
@@ -152,7 +217,7 @@ private def exSrv : Server :=
     reg := { funcs := [("add", { sig := { names := ["a", "b"] }, body := fun _ => .ret (.int 3) })] } }
 
 private def exCustom : Server :=
-  { cfg := {}, custom := some (fun _ _ => .raised "ValueError" "from custom" false false) }
+  { cfg := {}, custom := some (fun _ _ => .raised "ValueError" "from custom" false false 1) }
 
 private def call (rid : PyVal) : PyVal :=
   mkDict [("jsonrpc", .str "2.0"), ("id", rid), ("method", .str "add"), ("params", .list [.int 1, .int 2])]
@@ -172,6 +237,15 @@ example : respond exCustom (call (.int 3))
   decide +kernel
 
 example : wfNotification (mkDict [("id", .none), ("method", .str "add"), ("params", .list [])]) = true := by
+  decide +kernel
+
+/- An id that class translation turned into an instance has no JSON value: that one response is replaced
+   (id null), the next entry of the batch keeps its response and its id. -/
+example : (marshaledDispatch exSrv (.parsed (.list [call (.obj "Decimal" [("repr", .str "1")]), call (.int 4)]))).1
+    = .ok (.doc (.list [
+      .dict [(.str "id", .none), (.str "jsonrpc", .str "2.0"),
+             (.str "error", .dict [(.str "code", .int (-32603)), (.str "message", .str msgSerialize)])],
+      .dict [(.str "result", .int 3), (.str "id", .int 4), (.str "jsonrpc", .str "2.0")]])) := by
   decide +kernel
 
 end JRV.Props
